@@ -649,6 +649,9 @@ func (c *EvalCtx) call(e *Expr) CV {
 	case "rangeKey":
 		a := args()
 		return CV{T: "(rangeKey " + a[0].T + " " + a[1].T + ")", Sort: "Str", Type: types.Typ[types.String]}
+	case "byteAt":
+		a := args()
+		return integer("(byteAt " + a[0].T + " " + a[1].T + ")")
 	case "strLt":
 		a := args()
 		return boolean("(strLt " + a[0].T + " " + a[1].T + ")")
